@@ -8,6 +8,7 @@ package flyt
 import (
 	"fmt"
 	"math"
+	"os"
 	"reflect"
 	"runtime"
 	"strconv"
@@ -245,9 +246,34 @@ func vSameRV(a, b reflect.Value) bool {
 func vSig(name string, v int) {}
 func vYield()                 { runtime.Gosched() }
 func vMon(f func()) {
+	vJitter()
 	vmonMu.Lock()
-	defer vmonMu.Unlock()
 	f()
+	vmonMu.Unlock()
+	vJitter()
+}
+
+var vjitterOn = os.Getenv("VERIF_JITTER") != ""
+var vjitterMu sync.Mutex
+var vjitterState uint64 = uint64(time.Now().UnixNano()) | 1
+
+// vJitter shakes the native schedule during stress replays of schedule-dependent findings.
+func vJitter() {
+	if !vjitterOn {
+		return
+	}
+	vjitterMu.Lock()
+	vjitterState ^= vjitterState << 13
+	vjitterState ^= vjitterState >> 7
+	vjitterState ^= vjitterState << 17
+	r := vjitterState
+	vjitterMu.Unlock()
+	switch r % 4 {
+	case 0:
+		runtime.Gosched()
+	case 1:
+		time.Sleep(time.Duration(r%300) * time.Microsecond)
+	}
 }
 func vMonC(class int, f func()) { vMon(f) }
 func vBlockUntil(f func() bool) {
